@@ -1,1 +1,216 @@
-// FL: harness formula language (filled in below)
+//! FL — the harness's own formula language: a small AST with its own printer per
+//! language/locale. Operands that are operators are always parenthesised, so the tree the
+//! engine's parser builds from the printed text is exactly the tree that was generated.
+
+use ironcalc_base::expressions::token::Error;
+use ironcalc_base::language::{get_language, Language};
+use ironcalc_base::locale::{get_locale, Locale};
+use ironcalc_base::verif_hooks::all_functions;
+use rand::rngs::StdRng;
+use rand::Rng;
+use std::collections::BTreeMap;
+
+pub const LANGS: &[&str] = &["en", "es", "fr", "de", "it"];
+pub const LOCALES: &[&str] = &["en", "en-GB", "es", "fr", "de", "it"];
+
+#[derive(Clone, Debug, PartialEq)]
+pub enum F {
+    Num(String),
+    Str(String),
+    Bool(bool),
+    Err(usize),
+    /// a reference or range exactly as typed (A1 syntax is not localised)
+    Ref(String),
+    Bin(&'static str, Box<F>, Box<F>),
+    Neg(Box<F>),
+    Pct(Box<F>),
+    At(Box<F>),
+    Hash(Box<F>),
+    RangeOp(Box<F>, Box<F>),
+    /// English function name (Debug name of the engine's enum, e.g. "Sum")
+    Call(&'static str, Vec<F>),
+    Arr(Vec<Vec<F>>),
+}
+
+pub struct Dialect {
+    pub language: &'static Language,
+    pub locale: &'static Locale,
+    pub lang_id: String,
+    pub locale_id: String,
+    pub arg_sep: char,
+    pub dec: char,
+    pub arr_col: char,
+    pub arr_row: char,
+    fnames: BTreeMap<String, String>,
+}
+
+pub const ERRORS: &[Error] = &[Error::REF, Error::NAME, Error::VALUE, Error::DIV, Error::NA, Error::NUM, Error::NULL];
+
+impl Dialect {
+    pub fn new(lang_id: &str, locale_id: &str) -> Dialect {
+        let language = get_language(lang_id).expect("language");
+        let locale = get_locale(locale_id).expect("locale");
+        let point = locale.numbers.symbols.decimal == ".";
+        let mut fnames = BTreeMap::new();
+        for f in all_functions() {
+            fnames.insert(format!("{:?}", f), f.to_localized_name(language));
+        }
+        Dialect {
+            language,
+            locale,
+            lang_id: lang_id.to_string(),
+            locale_id: locale_id.to_string(),
+            arg_sep: if point { ',' } else { ';' },
+            dec: if point { '.' } else { ',' },
+            // what the engine prints for array literals (stringify.rs)
+            arr_col: if point { ',' } else { ';' },
+            arr_row: if point { ';' } else { '/' },
+            fnames,
+        }
+    }
+    pub fn fname(&self, debug_name: &str) -> String {
+        self.fnames.get(debug_name).cloned().unwrap_or_else(|| debug_name.to_uppercase())
+    }
+}
+
+fn is_operator(f: &F) -> bool {
+    matches!(f, F::Bin(..) | F::Neg(..) | F::Pct(..) | F::At(..) | F::Hash(..) | F::RangeOp(..))
+}
+
+fn operand(f: &F, d: &Dialect) -> String {
+    if is_operator(f) {
+        format!("({})", print(f, d))
+    } else {
+        print(f, d)
+    }
+}
+
+pub fn print(f: &F, d: &Dialect) -> String {
+    match f {
+        F::Num(s) => s.replace('.', &d.dec.to_string()),
+        F::Str(s) => format!("\"{}\"", s.replace('"', "\"\"")),
+        F::Bool(b) => {
+            if *b {
+                d.language.booleans.r#true.clone()
+            } else {
+                d.language.booleans.r#false.clone()
+            }
+        }
+        F::Err(i) => ERRORS[*i % ERRORS.len()].to_localized_error_string(d.language),
+        F::Ref(r) => r.clone(),
+        F::Bin(op, a, b) => format!("{}{}{}", operand(a, d), op, operand(b, d)),
+        F::Neg(a) => format!("-{}", operand(a, d)),
+        F::Pct(a) => format!("{}%", operand(a, d)),
+        F::At(a) => format!("@{}", operand(a, d)),
+        F::Hash(a) => format!("{}#", operand(a, d)),
+        F::RangeOp(a, b) => format!("{}:{}", operand(a, d), operand(b, d)),
+        F::Call(name, args) => {
+            let parts: Vec<String> = args.iter().map(|a| print(a, d)).collect();
+            format!("{}({})", d.fname(name), parts.join(&d.arg_sep.to_string()))
+        }
+        F::Arr(rows) => {
+            let parts: Vec<String> = rows
+                .iter()
+                .map(|r| r.iter().map(|c| print(c, d)).collect::<Vec<_>>().join(&d.arr_col.to_string()))
+                .collect();
+            format!("{{{}}}", parts.join(&d.arr_row.to_string()))
+        }
+    }
+}
+
+pub const BINOPS: &[&str] = &["=", "<>", "<", ">", "<=", ">=", "&", "+", "-", "*", "/", "^"];
+pub const SHEETS: &[&str] = &["Sheet1", "Sheet2", "My Sheet"];
+
+pub fn leaf(rng: &mut StdRng) -> F {
+    match rng.gen_range(0..16) {
+        0 => F::Num("1".into()),
+        1 => F::Num("2.5".into()),
+        2 => F::Num("0".into()),
+        3 => F::Str("ab".into()),
+        4 => F::Str("q\"t".into()),
+        5 => F::Bool(rng.gen_bool(0.5)),
+        6 => F::Err(rng.gen_range(0..ERRORS.len())),
+        7 => F::Ref("B2".into()),
+        8 => F::Ref("$C$3".into()),
+        9 => F::Ref("Sheet2!A$1".into()),
+        10 => F::Ref("'My Sheet'!$D4".into()),
+        11 => F::Ref("Ghost!A1".into()),
+        12 => F::Ref("A1:B2".into()),
+        13 => F::Ref("Sheet2!C1:D3".into()),
+        14 => F::Arr(vec![vec![F::Num("1".into()), F::Str("x".into())], vec![F::Bool(true), F::Num("4.5".into())]]),
+        _ => F::Call("Sum", vec![F::Ref("A1:A3".into()), F::Num("7".into())]),
+    }
+}
+
+/// node kinds for the bounded-exhaustive enumeration: 12 binaries + 5 unaries/range
+pub const KINDS: usize = 12 + 5;
+
+pub fn build(kind: usize, a: F, b: F) -> F {
+    if kind < BINOPS.len() {
+        return F::Bin(BINOPS[kind], Box::new(a), Box::new(b));
+    }
+    match kind - BINOPS.len() {
+        0 => F::Neg(Box::new(a)),
+        1 => F::Pct(Box::new(a)),
+        2 => F::At(Box::new(a)),
+        3 => F::Hash(Box::new(a)),
+        _ => {
+            // a bare number next to ':' is read by the lexer as a row range ("0:1"); the
+            // range operator is only generated between references, calls and operators
+            let fix = |x: F, alt: &str| match x {
+                F::Num(_) | F::Str(_) | F::Bool(_) | F::Err(_) | F::Arr(_) => F::Ref(alt.to_string()),
+                F::Ref(r) if r.contains(':') => F::Ref(alt.to_string()),
+                other => other,
+            };
+            F::RangeOp(Box::new(fix(a, "B2")), Box::new(fix(b, "$C$3")))
+        }
+    }
+}
+
+/// Does the tree contain `x+(y+z)` / `x+(y-z)`? The printer drops these parentheses on
+/// purpose (an existing test pins 1+(3+5) -> 1+3+5); that class is judged on its own.
+pub fn has_plus_right_nested(f: &F) -> bool {
+    let here = matches!(f, F::Bin("+", _, b) if matches!(**b, F::Bin("+", ..) | F::Bin("-", ..)));
+    if here {
+        return true;
+    }
+    match f {
+        F::Bin(_, a, b) | F::RangeOp(a, b) => has_plus_right_nested(a) || has_plus_right_nested(b),
+        F::Neg(a) | F::Pct(a) | F::At(a) | F::Hash(a) => has_plus_right_nested(a),
+        F::Call(_, args) => args.iter().any(has_plus_right_nested),
+        _ => false,
+    }
+}
+
+pub fn kind_name(kind: usize) -> &'static str {
+    if kind < BINOPS.len() {
+        BINOPS[kind]
+    } else {
+        ["neg", "pct", "at", "hash", "rangeop"][kind - BINOPS.len()]
+    }
+}
+
+pub fn random_tree(rng: &mut StdRng, depth: u32) -> F {
+    if depth == 0 || rng.gen_bool(0.25) {
+        return leaf(rng);
+    }
+    match rng.gen_range(0..10) {
+        0 => F::Call(
+            *crate::util::pick(rng, &["If", "Max", "Sum", "Iferror", "Concat", "And"]),
+            (0..rng.gen_range(1..=3)).map(|_| random_tree(rng, depth - 1)).collect(),
+        ),
+        _ => {
+            let k = rng.gen_range(0..KINDS);
+            if k == KINDS - 1 {
+                // In random trees the range operator only takes the shapes spreadsheets use
+                // (function:reference); the other operand shapes are judged class by class
+                // in the bounded-exhaustive part (several are known lexer limitations).
+                return F::RangeOp(
+                    Box::new(F::Call("Offset", vec![F::Ref("B2".into()), F::Num("1".into()), F::Num("1".into())])),
+                    Box::new(F::Ref("$C$3".into())),
+                );
+            }
+            build(k, random_tree(rng, depth - 1), random_tree(rng, depth - 1))
+        }
+    }
+}
